@@ -4,6 +4,7 @@ package compactindexsized
 
 import (
 	"bytes"
+	"encoding/binary"
 	"errors"
 	"io"
 
@@ -62,21 +63,32 @@ func EntryHash64(prefix uint32, key []byte) uint64 { return verifC13Hash[key[0]]
 // model of (*Header).BucketHash (the real one is renamed)
 func (h *Header) BucketHash(key []byte) uint { return verifC13Bucket[key[0]] }
 
+// verifC13Eytzinger: the eytzinger (BFS) order of a sorted slice - harness copy of the layout the
+// format defines (the builder's own function is exercised by C04).
+func verifC13Eytzinger(in, out []Entry, i, k int) int {
+	if k <= len(in) {
+		i = verifC13Eytzinger(in, out, i, 2*k)
+		out[k-1] = in[i]
+		i++
+		i = verifC13Eytzinger(in, out, i, 2*k+1)
+	}
+	return i
+}
+
 // verifC13Image lays out a complete, well-formed index: real Header.Bytes (one metadata pair),
-// nb bucket headers (real Store), bucket 0 with n entries in the builder's eytzinger order (real
-// eytzinger + marshalEntry), every further bucket with one entry. Hashes (24 bit) and values are
+// nb bucket headers (real Store), bucket 0 with n entries in eytzinger order (entry bytes laid out
+// by the harness), every further bucket with one entry. Hashes (24 bit) and values are
 // arbitrary. Returns the image, the stored values per key and the section boundaries.
 func verifC13Image(V, nb, n int) (img []byte, vals [][]byte, bounds []int) {
 	const mask = uint64(1)<<24 - 1
 	var meta indexmeta.Meta
 	meta.Add([]byte("kind"), []byte("c13"))
 	hdr := (&Header{ValueSize: uint64(V), NumBuckets: uint32(nb), Metadata: &meta}).Bytes()
-	stride := HashSize + V
+	const hashSize, bucketHdrLen = 3, 16 // format constants (HashSize, bucket header length)
+	stride := hashSize + V
 	total := len(hdr) + nb*bucketHdrLen + (n+nb-1)*stride
 	img = make([]byte, total)
 	copy(img, hdr)
-	desc := BucketDescriptor{Stride: uint8(stride), OffsetWidth: uint8(V)}
-	desc.HashLen = HashSize
 	bounds = append(bounds, 8, 12, len(hdr))
 	off := len(hdr) + nb*bucketHdrLen
 	key := 0
@@ -99,13 +111,17 @@ func verifC13Image(V, nb, n int) (img []byte, vals [][]byte, bounds []int) {
 			key++
 		}
 		laid := make([]Entry, cnt)
-		eytzinger(entries, laid, 0, 1)
+		verifC13Eytzinger(entries, laid, 0, 1)
 		// eytzinger permutes: remember which key sits where is not needed (lookup is by hash)
 		for i, e := range laid {
-			desc.marshalEntry(img[off+i*stride:off+(i+1)*stride], e)
+			// entry = 3-byte little-endian hash, then the value bytes
+			var hb8 [8]byte
+			binary.LittleEndian.PutUint64(hb8[:], e.Hash)
+			copy(img[off+i*stride:], hb8[:hashSize])
+			copy(img[off+i*stride+hashSize:off+(i+1)*stride], e.Value)
 		}
 		var hb [bucketHdrLen]byte
-		bh := BucketHeader{HashDomain: uint32(7 + b), NumEntries: uint32(cnt), HashLen: HashSize, FileOffset: uint64(off)}
+		bh := BucketHeader{HashDomain: uint32(7 + b), NumEntries: uint32(cnt), HashLen: hashSize, FileOffset: uint64(off)}
 		bh.Store(&hb)
 		copy(img[len(hdr)+b*bucketHdrLen:], hb[:])
 		bounds = append(bounds, len(hdr)+(b+1)*bucketHdrLen, off)
